@@ -35,6 +35,22 @@ type fault struct {
 	// reached through the reference at the fault position only
 	extras   map[string]*model.Node
 	noSource bool // no value exists that could carry a source: not demanded
+	// behind > 0: the bad VALUE does not sit at the fault position. The
+	// setting there holds a reference that resolves, over a chain of `behind`
+	// helper settings (refChain, top-level extras), to a value that is fine
+	// where it is stored and fails only when it is converted for the target
+	// of the setting being read. That setting is the one at fault.
+	behind   int
+	refChain []string
+	group    string // stratification group (the fault kind when empty)
+}
+
+// stratum is the key the faults of a case are stratified by.
+func (f fault) stratum() string {
+	if f.group != "" {
+		return f.group
+	}
+	return f.kind
 }
 
 func sub(kv ...interface{}) *model.Node {
@@ -78,7 +94,64 @@ type faultEnv struct {
 
 // sigKind is the fault kind as used in signatures: reference faults carry the
 // form of the text the reference is embedded in.
-func (f fault) sigKind() string { return f.kind + f.form }
+func (f fault) sigKind() string {
+	if f.behind > 0 {
+		return f.kind + f.form + "+behind-ref"
+	}
+	return f.kind + f.form
+}
+
+// behindRef derives, from the conversion faults of a leaf, the variants whose
+// bad value lives behind a reference: the setting holds "${zz_r<a>}", a chain
+// of 1-3 helper settings at the top level leads to the value. Only for struct
+// targets (which do not read the helpers).
+func behindRef(p *position, leaf []fault, pick func(int) int) []fault {
+	var out []fault
+	for _, f := range leaf {
+		if f.del || f.val == nil || f.val.Kind != model.KPrim || f.val.IsNil() || f.lenient || f.parentRaised {
+			continue
+		}
+		if s, ok := f.val.Prim.(string); ok && (strings.Contains(s, "$") || s == "") {
+			continue // an empty text behind a reference: whether that is a value at all is another matter
+		}
+		g := f
+		switch {
+		case f.kind == "out-of-range-duration":
+			g.group = "behind-ref:duration"
+		case strings.HasPrefix(f.kind, "out-of-range-") || f.kind == "negative-into-uint":
+			g.group = "behind-ref:range"
+		case f.kind == "bool-for-number" || f.kind == "number-for-bool" || strings.HasPrefix(f.kind, "unparsable-"):
+			g.group = "behind-ref:type"
+		default:
+			continue
+		}
+		v := f.val.Copy()
+		if f.kind == "out-of-range-duration" {
+			// seconds that do not fit: positive integers (Go ints and uints),
+			// negative integers, floats
+			v = model.P([]interface{}{int64(9223372037), int64(math.MaxInt64), uint64(1) << 62, uint64(math.MaxInt64), uint64(math.MaxUint64), uint64(9223372037),
+				int64(-9223372038), int64(math.MinInt64), 9.3e9, 1e19, -1e12}[pick(11)])
+		}
+		n := 1 + pick(3)
+		a := pick(7)
+		g.extras = map[string]*model.Node{}
+		g.refChain = nil
+		for k := 0; k < n; k++ {
+			g.refChain = append(g.refChain, fmt.Sprintf("zz_r%d", a+k))
+		}
+		for k, name := range g.refChain {
+			if k+1 < n {
+				g.extras[name] = model.P("${" + g.refChain[k+1] + "}")
+			} else {
+				g.extras[name] = v
+			}
+		}
+		g.val = model.P("${" + g.refChain[0] + "}")
+		g.behind = n
+		out = append(out, g)
+	}
+	return out
+}
 
 // refForms: how the text of a failing reference ${ref} is embedded in the
 // value of the setting. Whatever the form, evaluating the setting fails, and
@@ -193,7 +266,11 @@ func faultsAt(p *position, env faultEnv) []fault {
 		}
 		refs()
 	case kLeaf:
+		n0 := len(out)
 		leafFaults(p, s, tag, add, pick)
+		if env.topStruct {
+			out = append(out, behindRef(p, out[n0:], pick)...)
+		}
 		refs()
 		// a reference that resolves, but to an object of the tree (valid where
 		// it is): the wrong typed setting is the one holding the reference
